@@ -1043,7 +1043,8 @@ pub fn run() {
     let n_ls = t.pick(40usize, 3_000usize);
     par_cases("large-sparse", n_ls, move |r, i| {
         let hi = *r.pick(&[450usize, 700, 1000]);
-        let d = gen_long_sparse(r, 300, hi, PhasePool::Exact, r_gl(i), 0.0);
+        let lo = if r.chance(0.5) { 300 } else { r.log_uniform(80, hi - 1) };
+        let d = gen_long_sparse(r, lo, hi, PhasePool::Exact, r_gl(i), 0.0);
         let mut n = Neutral::from_desc(&d);
         for v in n.verts.iter_mut() {
             if v.kind != VType::B && r.chance(0.2) {
